@@ -146,6 +146,21 @@ func (w *writer) Delete(rs *segment.RewriteSegment) (*writer, *reader, error) {
 		return nwrt, nil, nil
 	}
 
+	nextOffset, nextTime := w.index.getNext()
+	tailDeleted := rs.DeletedMessages[len(rs.DeletedMessages)-1].Offset == w.index.getLastOffset()
+
+	var tailWriter *writer
+	if tailDeleted {
+		// the last message goes away: the new head segment, named after the next offset,
+		// has to exist before the rewritten files replace the old ones, otherwise a crash
+		// in between loses the next offset (it would be assigned again after reopen)
+		wrt, err := openWriter(w.segment.NewAt(nextOffset), w.params, w.version, nextTime)
+		if err != nil {
+			return nil, nil, err
+		}
+		tailWriter = wrt
+	}
+
 	nseg := rs.GetNewSegment()
 	if nseg != w.segment {
 		// the starting offset of the new segment is different
@@ -157,12 +172,9 @@ func (w *writer) Delete(rs *segment.RewriteSegment) (*writer, *reader, error) {
 			return nil, nil, err
 		}
 
-		// first move the replacement
-		nextOffset, nextTime := w.index.getNext()
-		if rs.DeletedMessages[len(rs.DeletedMessages)-1].Offset == w.index.getLastOffset() {
+		if tailDeleted {
 			rdr := openReader(nseg, w.params, w.version, false)
-			wrt, err := openWriter(w.segment.NewAt(nextOffset), w.params, w.version, nextTime)
-			return wrt, rdr, err
+			return tailWriter, rdr, nil
 		} else {
 			wrt, err := openWriter(nseg, w.params, w.version, nextTime)
 			return wrt, nil, err
@@ -173,11 +185,9 @@ func (w *writer) Delete(rs *segment.RewriteSegment) (*writer, *reader, error) {
 		return nil, nil, err
 	}
 
-	nextOffset, nextTime := w.index.getNext()
-	if rs.DeletedMessages[len(rs.DeletedMessages)-1].Offset == w.index.getLastOffset() {
+	if tailDeleted {
 		rdr := openReader(w.segment, w.params, w.version, false)
-		wrt, err := openWriter(w.segment.NewAt(nextOffset), w.params, w.version, nextTime)
-		return wrt, rdr, err
+		return tailWriter, rdr, nil
 	} else {
 		wrt, err := openWriter(w.segment, w.params, w.version, nextTime)
 		return wrt, nil, err
